@@ -83,6 +83,13 @@ var vg struct {
 	hellosRead int
 }
 
+// datagram-stack ghost state (unused on the stream stack)
+var vdg struct {
+	datagrams     [][]byte
+	timeouts      int
+	sentAtTimeout int
+}
+
 func vgNote(k int) {
 	if vg.n >= 12 {
 		verifAssume(false)
@@ -296,8 +303,17 @@ func (c *Conn) readHandshake(transcript transcriptHash) (interface{}, error) {
 }
 
 func (c *Conn) readChangeCipherSpec() error {
-	if verifSplitInt("ccs", 0, 1) == 0 {
+	hi := 1
+	if verifDatagramStack && c.isClient && vdg.timeouts == 0 {
+		hi = 2 // datagram stack: the read may time out once (the peer's flight, or ours, was lost)
+	}
+	switch verifSplitInt("ccs", 0, hi) {
+	case 0:
 		return errors.New("no ccs")
+	case 2:
+		vdg.timeouts++
+		vdg.sentAtTimeout = len(vdg.datagrams)
+		return verifDriverTimeout()
 	}
 	vgNote(kCCS)
 	if err := c.in.changeCipherSpec(); err != nil {
@@ -332,13 +348,15 @@ func (c *Conn) writeHandshakeRecord(msg handshakeMessage, transcript transcriptH
 	if transcript != nil {
 		transcript.Write(data)
 	}
+	verifDriverWrite(c, data)
 	return len(data), nil
 }
 func (c *Conn) writeChangeCipherRecord() error {
 	vg.ccsSent++
+	verifDriverWrite(c, []byte{20, 1})
 	return c.out.changeCipherSpec()
 }
-func (c *Conn) flush() (int, error)       { return 0, nil }
+func (c *Conn) flush() (int, error)       { return verifDriverFlush(c) }
 func (c *Conn) sendAlert(err alert) error { vg.alerts++; return err }
 
 func (c *Conn) verifyServerCertificate(certificates [][]byte) error {
@@ -422,7 +440,7 @@ func matchKinds(w []int) bool {
 
 // C02 / C03 / C08 / C10 / C12 — the real client handshake against a symbolic peer.
 //
-//verif:harness props=C02,C03,C08,C10,C12,C09 twinprops=C02,C03,C08,C10 paths=400000 tpaths=4000000 depth=300 reach=completedFull,completedResumed,failed
+//verif:harness props=C02,C03,C08,C10,C12,C09 twinprops=C02,C03,C08,C10,C19 paths=400000 tpaths=4000000 depth=300 reach=completedFull,completedResumed,failed
 func VerifHarness_client_handshake() {
 	stubSuites()
 	cache := &verifCache{}
@@ -506,4 +524,12 @@ func VerifHarness_client_handshake() {
 	verifAssert("C03.client.transcriptIsWireOrder", bytes.Equal(vg.srvSeed, vg.wire[:vg.finPos]) || (resumed && bytes.Equal(vg.srvSeed, vg.wire[:vg.finPos])))
 	verifAssert("C03.client.ccsBeforeFinished", vg.n >= 2 && vg.kinds[vg.n-2] == kCCS && vg.kinds[vg.n-1] == kFin)
 	verifAssert("C08.client.oneCCSSent", vg.ccsSent == 1)
+	if verifDatagramStack && vdg.timeouts == 1 && !resumed {
+		// (in an abbreviated handshake the client waits for the server's flight first and has nothing of its own to
+		// resend except the ClientHello; the server, which is one flight ahead, retransmits)
+		// C19: a timeout while waiting for the peer's last flight makes the client resend its own last flight,
+		// byte for byte, as the next datagram
+		k := vdg.sentAtTimeout
+		verifAssert("C19.react.timeoutResendsLastFlight", k >= 1 && len(vdg.datagrams) > k && len(vdg.datagrams[k]) > 0 && bytes.Equal(vdg.datagrams[k], vdg.datagrams[k-1]))
+	}
 }
